@@ -35,6 +35,9 @@ func (m *Mutex) TryLock() bool {
 func (m *Mutex) Unlock() {
 	m.held.Store(false)
 	m.mu.Unlock()
+	// yield right after releasing: what the owner does next (typically: start
+	// waiting) can be overtaken by whoever takes the lock now
+	sched.Gate("", "unlocked", nil)
 }
 
 type RWMutex struct {
